@@ -398,7 +398,7 @@ pub fn cfg_json(c: &Cfg) -> Value {
             "prog": match &s.prog { Some(p) => json!({"some": p.iter().map(|x| x.as_bytes().to_vec()).collect::<Vec<_>>()}), None => json!({"none": true}) }})).collect::<Vec<_>>(),
         "deps": c.deps.iter().map(|(k, d)| json!({"kind": DEP_KINDS[*k], "a": d.name.as_bytes(), "b": [d.flags >> 16, d.flags & 0xFFFF], "c": d.version.as_bytes()})).collect::<Vec<_>>(),
         "changelog": c.changelog.iter().map(|(n, t, ts)| json!({"a": n.as_bytes(), "b": [ts >> 16, ts & 0xFFFF], "c": t.as_bytes()})).collect::<Vec<_>>(),
-        "compression": match &c.compression { Some((t, l)) => json!({"some": {"type": t, "level": l}}), None => json!({"none": true}) },
+        "compression": match &c.compression { Some((t, l)) => json!({"some": {"type": t, "level": match l { Some(x) => json!({"some": x}), None => json!({"none": true}) }}}), None => json!({"none": true}) },
         "source_date": match c.source_date { Some(e) => json!({"some": [e >> 16, e & 0xFFFF]}), None => json!({"none": true}) },
         "signer": match &c.signer { Some(k) => json!({"some": k}), None => json!({"none": true}) },
     })
